@@ -21,12 +21,23 @@ class SimAbort(BaseException):
     """Injected abort (the moral equivalent of Ctrl-C / MemoryError / a timeout wrapper)."""
 
 
-class LineTracer:
-    """Counts 'line' events in frames of /repo/OpenPinch; raises SimAbort at the n-th (n=None: count only)."""
+INJECTED_ERRORS = {
+    # ordinary exceptions, as a failing allocation / system call would raise them in the middle of a call: unlike SimAbort
+    # (a BaseException, like Ctrl-C) these travel through the library's own `except Exception` handlers
+    "memory": lambda n: MemoryError(f"injected allocation failure at library line #{n}"),
+    "os": lambda n: OSError(12, f"injected system-call failure at library line #{n}"),
+}
 
-    def __init__(self, abort_at=None):
+
+class LineTracer:
+    """Counts 'line' events in frames of /repo/OpenPinch; at the n-th raises SimAbort (exc=None) or an injected ordinary
+    exception (exc='memory' | 'os').  n=None: count only."""
+
+    def __init__(self, abort_at=None, exc=None):
         self.n = 0
         self.abort_at = abort_at
+        self.exc = exc
+        self.injected = None
         self.fired = False
         self.where = None
 
@@ -36,6 +47,9 @@ class LineTracer:
             if self.abort_at is not None and self.n >= self.abort_at and not self.fired:
                 self.fired = True
                 self.where = (frame.f_code.co_filename[len(LIB_PREFIX):], frame.f_code.co_name)
+                if self.exc:
+                    self.injected = INJECTED_ERRORS[self.exc](self.n)
+                    raise self.injected
                 raise SimAbort(f"abort at library line #{self.n}")
         return self._local
 
@@ -44,8 +58,18 @@ class LineTracer:
             return self._local
         return None
 
+    def _came_from_injection(self, e):
+        seen = 0
+        while e is not None and seen < 50:
+            if e is self.injected:
+                return True
+            e, seen = (e.__cause__ or e.__context__), seen + 1
+        return False
+
     def run(self, fn):
-        """Run fn() traced.  Returns (kind, value): ok / raise / abort."""
+        """Run fn() traced.  Returns (kind, value): ok / raise / abort.  'abort' = the injected exception (SimAbort, or the
+        injected ordinary exception, possibly wrapped by the library with `raise ... from`) came out of the call.  A caller
+        seeing `fired` with another kind knows the injection was swallowed inside the library."""
         old = sys.gettrace()
         sys.settrace(self._global)
         try:
@@ -56,6 +80,8 @@ class LineTracer:
         except SimAbort:
             return ("abort", None)
         except Exception as e:
+            if self.injected is not None and self._came_from_injection(e):
+                return ("abort", e)
             return ("raise", e)
 
 
